@@ -219,12 +219,12 @@ def pow_case(e, label):
         r = out.value
         for k in KINDS:
             api.check(P + "/dim." + k, api.eq(r.units.dim[k], a.units.dim[k] * ev))
-        if isinstance(ev, int) or api.mode == "conc":
-            exp = power(api, Q.si(api, a), ev)
-            api.check(P + "/si", api.eq(Q.si(api, r), exp))
-        else:
-            exp = power(api, Q.si(api, a), ev)
-            api.check(P + "/si", api.eq(Q.si(api, r), exp))
+        if isinstance(ev, float) and api.mode == "sym":
+            # fractional exponent: the SI clause needs multiplicativity of real roots over the unit factors, which the
+            # ghost root / power functions do not carry: checked numerically in the concrete twin only (conformance runs)
+            return
+        exp = power(api, Q.si(api, a), ev)
+        api.check(P + "/si", api.eq(Q.si(api, r), exp))
 
     return Case(cid, run, functions=["UnitValue.__pow__", "Units.raiseto"])
 
@@ -313,6 +313,9 @@ for _op in ("lt", "le", "gt", "ge", "eq", "ne"):
 for _e, _lab in ((2, "2"), (3, "3"), (-1, "-1"), (-2, "-2"), (0, "0"), (1, "1")):
     CASES.append(pow_case(_e, _lab))
 CASES.append(pow_case(lambda api: api.int("e", -6, 6, draw=(-3, 3)), "int"))
+# fractional exponents: allowed exactly when every resulting dimension exponent is an integer (each dimension is checked)
+for _e, _lab in ((0.5, "0.5"), (1.5, "1.5"), (-0.5, "-0.5")):
+    CASES.append(pow_case(_e, _lab))
 CASES.append(unary_case("neg", "uv", lambda a: -a, lambda api, x: -x))
 CASES.append(unary_case("pos", "uv", lambda a: +a, lambda api, x: x))
 CASES.append(unary_case("abs", "uv", lambda a: abs(a), _abs))
